@@ -285,6 +285,20 @@ def rule_in(ctx):
                 rep.ob('DF', K.key(pre, mname, 'True-means-FilterException-else-the-given-selection'), ok, n,
                        '' if ok else 'catch_filter_exception=True must select FilterException and any other value '
                        'must be used as given')
+        # the same selection written as a conditional expression
+        for n in A.walk_local(mem.node):
+            if isinstance(n, ast.IfExp):
+                t, neg = A.strip_not(n.test)
+                if isinstance(t, ast.Compare) and isinstance(t.ops[0], (ast.Is, ast.IsNot)) and A.is_const(t.comparators[0], True) \
+                        and A.is_self_attr(t.left, 'catch_filter_exception'):
+                    n_true += 1
+                    if isinstance(t.ops[0], ast.IsNot):
+                        neg = not neg
+                    when_true, otherwise = (n.orelse, n.body) if neg else (n.body, n.orelse)
+                    ok = A.src(when_true) == 'FilterException' and A.is_self_attr(otherwise, 'catch_filter_exception')
+                    rep.ob('DF', K.key(pre, mname, 'True-means-FilterException-else-the-given-selection'), ok, n,
+                           '' if ok else 'catch_filter_exception=True must select FilterException and any other value '
+                           'must be used as given')
     rep.floor('prefetch selection sites', n_true, 2)
 
 
